@@ -371,6 +371,21 @@ func cmdCheck(args []string) int {
 			for _, m := range u.HavocAlls {
 				fmt.Printf("    havoc-all: %s\n", m)
 			}
+			if len(u.HavocAlls) > 0 && u.unit != nil {
+				seenD := map[*stableDecl]bool{}
+				for _, fam := range sortedKeys(w.stableFams) {
+					d := w.stableFams[fam]
+					if seenD[d] {
+						continue
+					}
+					seenD[d] = true
+					if w.stableIn(fam, u.unit.fn) == nil {
+						fmt.Printf("    stable %s NOT usable here: a reachable function stores to it: %s\n", d.text, w.whyUnstable(d, u.unit.fn))
+					} else {
+						fmt.Printf("    stable %s kept across the havocs\n", d.text)
+					}
+				}
+			}
 		}
 	}
 	for _, d := range disagreements {
